@@ -1,7 +1,7 @@
 /-
   Line protocol of `drv_attr7606` (M-Attr7606: ExaBGP's attribute parse loop and `_parse_payload`, RFC 7606 spec).
 
-  FIX     five characters 0/1: assemble overrun nh4 seg0 flagCls   (`00000` = the code as it is)
+  FIX     one character 0/1: seg0 (C08b, the one repair still open)   (`0` = the code as it is)
   PARAMS  as in drv_wire: <asn4:0|1> <addpath families> <ext-nexthop families> <msgSize>, families `afi.safi` joined by `+`, `-` = none
   FAMS    negotiated families, same syntax
 
@@ -23,7 +23,7 @@ open Exa Exa.Wire Exa.Attr7606
 
 def fix? (s : String) : Option Fix :=
   match s.toList.mapM (fun c => if c = '1' then some true else if c = '0' then some false else none) with
-  | some [a, b, c, d, e] => some ⟨a, b, c, d, e⟩
+  | some [a] => some ⟨a⟩
   | _ => none
 
 def showRoute (r : Route) : String := s!"{r.1}.{r.2.1}/" ++ showNlri r.2.2
